@@ -280,6 +280,8 @@ func main() {
 				run(p, d, J{"?x": 1.0}, "match")
 				run(p, d, J{}, "gotyped")
 				run(p, d, J{"?x": 1.0}, "bind")
+				run(p, d, J{"?x": nil}, "bind") // a variable bound to null is bound
+				run(p, d, J{"?x": nil}, "match")
 			}
 			if k%(4**stride) == 0 {
 				run(p, d, J{}, "plaintyped")
